@@ -18,9 +18,10 @@ type c05Case struct {
 
 func init() {
 	mc.Register(&mc.Property{
-		ID:     "C05",
-		Word32: true,
-		Level:  "exploration",
+		ID:       "C05",
+		Word32:   true,
+		DebugTag: true,
+		Level:    "exploration",
 		Rule: "E1 complete enumeration of the whole domain: every height h in [0,30] × every index in [0, 2^(h+1)-1) — 2^32-33 pairs. Oracle: pre-order successor on (prefix,length) walked in index order (shards start from the node found by descending by subtree sizes); the path word is assembled by hand. " +
 			"Both directions are judged against the walk: IndexToPath(h,i) == node_i and PathToIndex(2^(h+1)-1, node_i) == i. A case is one (h,index) pair; non-trivial when h > 4 (not answered from the lookup table alone) and 0 < index.",
 		Assumptions: []string{"the successor function is the definition of pre-order on the full tree"},
@@ -54,18 +55,30 @@ func c05Run(c *mc.Ctx) {
 		lo, hi int64
 	}
 	var shards []shard
+	// The build with the openacid/must contracts compiled in (-tags debug, run as a variant pass by
+	// mc.Main) is 50 times slower: there the domain is every index for heights 0..22 and, for taller
+	// trees, the first two, the middle and the last two chunks of 2^20 indexes.
+	reduced := mc.Variant() == "tags-debug"
 	for h := 0; h <= 30; h++ {
 		n := int64(2)<<uint(h) - 1
-		c.Expect(n)
+		nch := (n + chunk - 1) / chunk
 		for lo := int64(0); lo < n; lo += chunk {
 			hi := lo + chunk
 			if hi > n {
 				hi = n
 			}
+			if k := lo / chunk; reduced && h > 22 && k > 1 && k < nch-2 && k != nch/2 {
+				continue
+			}
+			c.Expect(hi - lo)
 			shards = append(shards, shard{h, lo, hi})
 		}
 	}
-	c.Set("domain", "all heights 0..30 × all indexes: 2^32-33 = 4294967263 pairs")
+	if reduced {
+		c.Set("domain", "tags-debug variant: all heights 0..22 × all indexes, heights 23..30 × five chunks of 2^20 indexes each")
+	} else {
+		c.Set("domain", "all heights 0..30 × all indexes: 2^32-33 = 4294967263 pairs")
+	}
 	c.Par(len(shards), func(si int) {
 		if c.TooMany() {
 			return
